@@ -53,6 +53,28 @@ def run(prog, rep, tier, repo):
             rep.ok('even-in-lag', key, 'the lag is read only through abs(k) (%d uses)' % uses)
     rep.floor('even-in-lag', 2, 'acovf, acf')
 
+    # ------------------------------------------------------------------ D1' the lagged sum starts at |k| itself
+    # biased estimator: sum over i = |k| .. n-1 of (x_i - m)(x_{i-|k|} - m); for |k| >= n the sum is empty and the value 0.  The lower limit
+    # of the summation range (or the number of skipped leading elements) must be |k| and nothing else: a clamped lag (min(|k|, n-1)) gives the
+    # single-pair value where 0 is due
+    for name in ('acovf', 'acf'):
+        k = TF + name
+        f = prog.func(k)
+        key = 'lag-window:%s' % name
+        if f is None:
+            continue
+        found = _lag_limits(prog, f, ('arg', 2, f.names.get(2)), 0)
+        if not found:
+            rep.undecided('lag-window', key, 'no summation range / skip count depending on the lag found', site_of(f.body), proof=False)
+            continue
+        bad = [(what, t) for what, t, exact in found if not exact]
+        if bad:
+            rep.viol('lag-window', key, '%s starts its lagged sum at %s, which is not |k| itself: for lags where the two differ (|k| >= n after a clamp) the '
+                     'biased-estimator value (0 for |k| >= n) is not returned' % (name, show(bad[0][1])[:60]), site_of(f.body))
+        else:
+            rep.ok('lag-window', key, 'the lagged sum starts at |k| (%s)' % ', '.join(w for w, _, _ in found))
+    rep.floor('lag-window', 2, 'acovf, acf')
+
     # ------------------------------------------------------------------ D2 scale types + D5
     seeds = {('sym', 'DATA'): Ty(unit('X', 1))}
     forms = {}
@@ -241,6 +263,60 @@ def _raw_uses(e, icpt, out):
 
 def _adds_intercept(e, icpt):
     return e[0] == 'b' and e[1] == 'Add' and icpt in (e[2], e[3])
+
+
+def _lag_limits(prog, f, karg, depth):
+    """[(what, term, is_exactly_abs_k)] for every summation lower limit / skip count in f (its closures and the helpers the lag is handed
+    to) that depends on the lag parameter"""
+    pdb = prog.pdb
+    out = []
+
+    def strip(t):
+        while tag(t) == 'cast':
+            t = t[2]
+        return t
+
+    def is_abs_k(t, leafs):
+        t = strip(t)
+        # abs(k) directly, or a single-definition local holding it (inlined), possibly cast
+        return tag(t) == 'call' and t[1].endswith('::abs') and len(t[2]) == 1 and strip(t[2][0]) in leafs
+    bodies = [(f, {karg})]
+    for b in pdb.closures_of(f.body.key):
+        g = prog.func(b.key)
+        leafs = set()
+        for t in [a for c in f.calls() for a in c.args]:
+            for z in subterms(t):
+                if tag(z) == 'agg' and z[1] == 'closure' and z[2] == b.key:
+                    for i, u in enumerate(z[3]):
+                        if karg in list(subterms(u)):
+                            leafs.add(('upvar', i))
+        bodies.append((g, leafs))
+    for g, leafs in bodies:
+        def mentions(t, leafs=leafs):
+            return any(z in leafs or (tag(z) == 'upvar' and ('upvar', z[1]) in leafs) for z in subterms(t))
+
+        def leafset(leafs=leafs):
+            return leafs | {z for z in leafs}
+        for c in g.calls():
+            for a in c.args:
+                for z in subterms(a):
+                    if tag(z) == 'range' and mentions(z[1]):
+                        lf = {q for q in subterms(z[1]) if q in leafs or (tag(q) == 'upvar' and ('upvar', q[1]) in leafs)}
+                        out.append(('range from %s' % show(z[1])[:30], z[1], is_abs_k(z[1], lf)))
+            if c.path and short(c.path) == 'skip' and len(c.args) == 2 and mentions(c.args[1]):
+                lf = {q for q in subterms(c.args[1]) if q in leafs or (tag(q) == 'upvar' and ('upvar', q[1]) in leafs)}
+                out.append(('skip(%s)' % show(c.args[1])[:30], c.args[1], is_abs_k(c.args[1], lf)))
+            if c.path in pdb.bodies and depth < 3 and g is f:
+                for i, a in enumerate(c.args):
+                    if a == karg:
+                        h = prog.func(c.path)
+                        out += _lag_limits(prog, h, ('arg', i + 1, h.names.get(i + 1)), depth + 1)
+    # de-duplicate
+    seen = []
+    for o in out:
+        if o not in seen:
+            seen.append(o)
+    return seen
 
 
 def _lag_uses(prog, rep, f, karg, bad, depth):
